@@ -41,7 +41,7 @@ prop("C05", title="forget safety", trusted=[HAND, EXTR, UBDEF])
 prop("C06", title="never-allocated vector", equiv=["EquivAsPtr.as_ptr_equiv"], trusted=[HAND, EXTR, UBDEF], profiles="dr")
 prop("C07", title="capacity honest / reservation contract / stability", equiv=["EquivCap.len_equiv", "EquivCap.capacity_equiv", "EquivCap.reserve_exact_equiv", "EquivCap.shrink_to_fit_equiv", "EquivCap.shrink_to_equiv"], trusted=[HAND, EXTR])
 prop("C08", title="alignment", equiv=["EquivAlign.alignment_equiv", "EquivMaxAlign.max_align_equiv"], trusted=[HAND, EXTR])
-prop("C09", title="impossible sizes", equiv=["next_aligned_equiv", "make_layout_equiv"], quick_n=240, thorough_n=4000, child_timeout=15,
+prop("C09", title="impossible sizes", equiv=["next_aligned_equiv", "make_layout_equiv"], quick_n=480, thorough_n=4000, child_timeout=15,
      trusted=[HAND, EXTR, "Eval.v's reading of usize arithmetic (panic in debug, wrap in release), checked_add/checked_mul and Layout::from_size_align"])
 prop("C10", title="iterator protocol", trusted=[HAND, EXTR])
 prop("C11", title="out-of-range arguments rejected atomically", equiv=[], trusted=[HAND, EXTR])
@@ -55,7 +55,7 @@ prop("C16", title="compile-time rules", impl="rustc",
      trusted=["rustc is the observed oracle: the corpus of must-not-compile / must-compile programs is compiled against the current crate",
               "coq/Static.v checks signature tables only; Rust's borrow checker, auto-trait derivation and variance are NOT modelled"])
 prop("C17", title="ill-behaved safe callbacks", trusted=[HAND, EXTR, UBDEF])
-prop("C18", title="allocation failure", equiv=[], quick_n=240, thorough_n=3000, profiles="dr", trusted=[HAND, EXTR])
+prop("C18", title="allocation failure", equiv=[], quick_n=480, thorough_n=3000, profiles="dr", trusted=[HAND, EXTR])
 prop("C19", title="serde", equiv=["EquivSerde.map_size_hint_equiv"], impl="serde",
      trusted=["the two visitor loops of src/serde.rs are not modelled in Coq; they are exercised by the harness with a recording serializer and a scripted SeqAccess"])
 
